@@ -234,6 +234,31 @@ func c17Seeds(format string, thorough bool) []c17Seed {
 			}
 		}
 	}
+	// a JSON null where a type description is expected, at every depth of a type description
+	nullTypes := []string{`null`, `["list",null]`, `["set",null]`, `["map",["list",null]]`, `["tuple",["string",null]]`, `["tuple",[null]]`, `["object",{"a":null}]`, `["object",{"a":"string","b":["list",null]}]`, `["object",{"a":"string"},null]`, `["list",["object",{"a":null},["a"]]]`}
+	switch format {
+	case "jsontype":
+		for _, nt := range nullTypes {
+			add([]byte(nt), nil, "type-with-null")
+		}
+	case "json":
+		for _, nt := range nullTypes {
+			add([]byte(`{"type":`+nt+`,"value":[]}`), []*TS{tsDyn}, "wrapper-with-null-type")
+			add([]byte(`{"value":["x"],"type":`+nt+`}`), []*TS{tsDyn, tList(tsDyn)}, "wrapper-with-null-type")
+			add([]byte(`[{"value":{"a":"x"},"type":`+nt+`}]`), []*TS{tList(tsDyn), tTuple(tsDyn)}, "wrapper-with-null-type")
+		}
+	case "msgpack":
+		for _, nt := range nullTypes {
+			if len(nt) > 255 {
+				continue
+			}
+			hdr := append([]byte{0x92, 0xc4, byte(len(nt))}, nt...)
+			add(append(append([]byte(nil), hdr...), 0x90), []*TS{tsDyn}, "wrapper-with-null-type")
+			add(append(append([]byte(nil), hdr...), 0x91, 0xa1, 'x'), []*TS{tsDyn, tList(tsDyn)}, "wrapper-with-null-type")
+			add(append(append([]byte(nil), hdr...), 0x81, 0xa1, 'a', 0xa1, 'x'), []*TS{tsDyn}, "wrapper-with-null-type")
+			add(append([]byte{0x91}, append(append([]byte(nil), hdr...), 0xc0)...), []*TS{tList(tsDyn), tTuple(tsDyn)}, "wrapper-with-null-type")
+		}
+	}
 	if format == "jsontype" {
 		for _, t := range []*TS{tObj(ato("a", tsStr), at("b", tsNum)), tList(tObj(ato("x", tsDyn))), tTuple(tsDyn, tMap(tSet(tsBool))), tsDyn} {
 			if b, err := ctyjson.MarshalType(t.Build()); err == nil {
